@@ -143,18 +143,21 @@ def run_binnify(ctx, shard):
         cid = f"binnify:{shard.get('sub', 0)}:{k}"
         nch = int(rng.integers(1, 7))
         names = gen.gen_names(rng, nch)
-        b = int([1, 2, 3, 5, 7, 10, 100, 1000, 4096][int(rng.integers(9))])
+        b = int([1, 2, 3, 5, 7, 10, 100, 1000, 4096, 10**4, 10**5, 10**6, 2 * 10**6, 5 * 10**6, 10**7,
+                 10**6, 25 * 10**5][int(rng.integers(17))])
         lengths = []
         for _ in range(nch):
             r = rng.random()
-            if r < 0.2:
+            if r < 0.08:
+                lengths.append(int(rng.integers(1, 12)))              # contig of a few bp, whatever the width
+            elif r < 0.2:
                 lengths.append(int(rng.integers(1, b + 1)))          # <= b
             elif r < 0.4:
                 lengths.append(b * int(rng.integers(1, 12)))          # exact multiple
             elif r < 0.5:
                 lengths.append(1)
             elif r < 0.6:
-                lengths.append(b * int(rng.integers(1, 12)) + 1)      # one over
+                lengths.append(b * int(rng.integers(1, 12)) + int([1, 1, 2, 5, 10][int(rng.integers(5))]))  # just over
             elif r < 0.7:
                 lengths.append(max(1, b * int(rng.integers(1, 12)) - 1))  # one under
             else:
@@ -260,9 +263,9 @@ def run_cli(ctx, shard):
         cid = f"cli:{k}"
         nch = int(rng.integers(1, 5))
         names = [n for n in gen.gen_names(rng, nch) if " " not in n] or ["chr1"]
-        b = int([1, 3, 10, 1000][int(rng.integers(4))])
-        lengths = [int(rng.integers(1, 15 * b + 1)) if rng.random() < 0.8 else b * int(rng.integers(1, 5))
-                   for _ in names]
+        b = int([1, 3, 10, 1000, 10**6, 5 * 10**6][int(rng.integers(6))])
+        lengths = [int(rng.integers(1, 15 * b + 1)) if rng.random() < 0.6 else
+                   b * int(rng.integers(1, 5)) + int([0, 1, 2, 7][int(rng.integers(4))]) for _ in names]
         if not ctx.want(cid):
             continue
         with ctx.case(cid, {"chromsizes": list(zip(names, lengths)), "binsize": b}) as c:
